@@ -233,16 +233,17 @@ _re_build_id = regex.compile(r'^[0-9]+$')
 
 
 def _build_sheet_id(sheet='', directory='', filename='', **kw):
-    sheet = sheet.replace("''", "'").upper()
+    sheet = sheet.upper()
+    quoted = sheet.replace("'", "''")  # Inside quotes a quote is doubled.
     if filename:
         if _re_build_id.match(filename):
             sheet = "[%s]%s" % (filename, sheet)
         else:
             if directory and not directory.endswith('/'):
                 directory += '/'
-            sheet = "'%s[%s]%s'" % (directory, filename, sheet)
-    elif ' ' in sheet:
-        sheet = "'%s'" % sheet
+            sheet = "'%s[%s]%s'" % (directory, filename, quoted)
+    elif ' ' in sheet or "'" in sheet:
+        sheet = "'%s'" % quoted
     return sheet
 
 
@@ -354,6 +355,8 @@ def range2parts(outputs, **inputs):
             'external_links', {}
         ).get(excel_id, ('', excel_id))
 
+    if inputs.get('sheet'):  # The title itself: a doubled quote is one quote.
+        inputs['sheet'] = inputs['sheet'].replace("''", "'")
     if 'sheet_id' not in inputs:
         inputs['sheet_id'] = _build_sheet_id(**inputs)
     try:
